@@ -55,9 +55,19 @@ CUSTOM = _Lazy({
     "lendiff": _lendiff,
     "lev+lendiff": lambda a, b: ref_lev(a, b) + _lendiff(a, b),
     "zero": lambda a, b: 0,
+    "tenthlev": lambda a, b: 0.1 * ref_lev(a, b),
 })
 LIB_FUNCS = ("rapidfuzz-function", "python-Levenshtein-function")
 MAXCD = (INF, 0, 0.5, 1, 2, 3, 10, 20)
+import math as _math
+# real-valued distances: radii exactly on an attained value and one ulp below it (no tolerance: 0.1 > nextafter(0.1, 0); 0.1*3 > 0.3)
+TENTH_RADII = (_math.nextafter(0.1, 0.0), 0.1, _math.nextafter(0.2, 0.0), 0.2, 0.3, INF)
+
+
+def radii(cname):
+    return TENTH_RADII if cname == "tenthlev" else MAXCD
+
+
 SELF_ENG = ("symdel", "nearest_neighbor", "kdtree", "hash_based")
 TWO_ENG = ("symdel2", "SymdelDB", "LookupDB")
 
@@ -233,19 +243,19 @@ def check_case(case, acc):
     if kind == "uni":
         _, alpha, L, cname, k, eng = case
         seqs = E.universe(alpha, L)
-        for maxcd in MAXCD:
+        for maxcd in radii(cname):
             _classify(acc, seqs, k, cname, maxcd)
             _cmp(acc, case, eng, seqs, k, cname, maxcd, None, False)
     elif kind == "uni2":
         _, alpha, L, cname, k, eng = case
         seqs = E.universe(alpha, L)
-        for maxcd in MAXCD:
+        for maxcd in radii(cname):
             _classify(acc, seqs, k, cname, maxcd)
             _cmp(acc, case, eng, seqs[::-1], k, cname, maxcd, seqs, False)
     elif kind == "list":
         _, seqs, cname = case
         for k in (1, 2):
-            for maxcd in MAXCD:
+            for maxcd in radii(cname):
                 _classify(acc, seqs, k, cname, maxcd)
                 for eng in SELF_ENG:
                     if eng == "hash_based" and k > 1:
